@@ -771,6 +771,41 @@ def drive_c20(tier, seed, cfg):
                 add("successful-output-file-run-creates-other-files", dict(rc=rc, cwd=left_c[:5], want=[outname]), rp)
             if rc != 0 and left_c:
                 add("failed-output-file-run-leaves-files-in-cwd", dict(rc=rc, left=left_c[:5]), rp)
+    # --output FILE on a "full disk" (file size limit smaller than the report): the write fails half way - FILE must not stay
+    # behind half written
+    def run_fullout(k):
+        import resource as _res
+        d = tempfile.mkdtemp(prefix="fo-", dir=fd)
+        t2, c2 = os.path.join(d, "tmp"), os.path.join(d, "cwd")
+        os.makedirs(t2)
+        os.makedirs(c2)
+        small = ('project s "S" 2025-03-03 +2w {\n}\n' + "".join('task m%d "m%d" { milestone start 2025-03-%02d }\n' % (i, i, 3 + i % 10) for i in range(14))).encode()
+        open(os.path.join(c2, "in.tjp"), "wb").write(small)
+        outname = "out.json" if k % 2 == 0 else "out.csv"
+        args = [PLAN, "--quiet", "report"] + (["--csv"] if outname.endswith(".csv") else []) + ["-o", outname, "in.tjp"]
+        lim = 1024 if k % 2 == 0 else 300
+        try:
+            p = subprocess.run(args, cwd=c2, env=cli_env(t2), stdin=subprocess.DEVNULL, capture_output=True, timeout=120,
+                               preexec_fn=lambda: _res.setrlimit(_res.RLIMIT_FSIZE, (lim, lim)))
+            rc = p.returncode
+        except subprocess.TimeoutExpired:
+            rc = "timeout"
+        left_t = snapshot(t2)
+        left_c = [x for x in snapshot(c2) if x != "in.tjp"]
+        sizes = {x: os.path.getsize(os.path.join(c2, x)) for x in left_c if os.path.isfile(os.path.join(c2, x))}
+        shutil.rmtree(d, ignore_errors=True)
+        return k, lim, outname, rc, left_t, left_c, sizes
+    with cf.ThreadPoolExecutor(max_workers=4) as ex:
+        for k, lim, outname, rc, left_t, left_c, sizes in ex.map(run_fullout, range(tc.get("fullouts", 4))):
+            C["output-file-on-full-disk-runs"] += 1
+            sigs.add(common.dumps(("C20", "fullout", lim, rc if isinstance(rc, str) else (0 if rc == 0 else "fail"), bool(left_c))))
+            rp = dict(args="-o " + outname, file_size_limit=lim, rc=rc)
+            if rc == "timeout":
+                continue
+            if left_t:
+                add("full-disk-run-leaves-files-in-tmpdir", dict(rc=rc, left=left_t[:5]), rp)
+            if rc != 0 and left_c:
+                add("failed-output-file-run-leaves-files-in-cwd", dict(rc=rc, left=left_c[:5], sizes=sizes, limit=lim), rp)
     # the consumer of the report is gone or cannot take it: stdout is a pipe whose read end is closed / a full device
     # (seeded change C20-c restored the default SIGPIPE disposition: the process died with every artefact in place)
     def run_badout(k):
@@ -814,7 +849,7 @@ def drive_c20(tier, seed, cfg):
             if left_c:
                 add("unwritable-stdout-leaves-files-in-cwd", dict(kind=kind, rc=rc, left=left_c[:5]), rp)
     shutil.rmtree(root, ignore_errors=True)
-    C["cases"] = C["concurrent-processes"] + C["failpoint-runs"] + C["sigint-runs"] + C["solitary-runs"] + C["unwritable-stdout-runs"] + C["output-file-runs"] + C["odd-input-path-runs"]
+    C["cases"] = C["concurrent-processes"] + C["failpoint-runs"] + C["sigint-runs"] + C["solitary-runs"] + C["unwritable-stdout-runs"] + C["output-file-runs"] + C["odd-input-path-runs"] + C["output-file-on-full-disk-runs"]
     C["nontrivial"] = len(sigs)
     C["distinct-interleavings"] = sum(1 for s in sigs if s.startswith("interleaving:"))
     return dict(C=C, sigs=sigs, viols=viols, vc=vc, samples=samples, notes=notes, status=status, nworkers=common.NCPU)
